@@ -205,6 +205,46 @@ func cropModelCase(c *Ctx, req string, out *mp4.File, ms uint64) {
 	c10ModelCases++
 	key := strings.ReplaceAll(req, " ", "/")
 	c.Case(cropRequest(key, c10CurIn, int(ms), out.Mdat.PayloadAbsoluteOffset()), cropAnswer(c10CurIn, out, mdatRanges(c10CurIn, out)))
+	c.Case(cropHdrRequest(key, c10CurIn, int(ms)), cropHdrAnswer(out))
+	c.Count("model.crophdr")
+}
+
+func elstDurs(trak *mp4.TrakBox) string {
+	var d []string
+	if trak.Edts != nil {
+		for _, e := range trak.Edts.Elst {
+			for _, en := range e.Entries {
+				d = append(d, strconv.FormatUint(en.SegmentDuration, 10))
+			}
+		}
+	}
+	if len(d) == 0 {
+		return "-"
+	}
+	return strings.Join(d, ",")
+}
+
+// cropHdrRequest: "crophdr H=<key> <ms> <mvhd timescale> <mvhd duration> <n> {tkhdDur elst}*n {hdlr timescale tables}*n"
+func cropHdrRequest(key string, in *mp4.File, ms int) string {
+	mv := in.Moov.Mvhd
+	p := []string{"crophdr", "H=" + key, strconv.Itoa(ms), strconv.FormatUint(uint64(mv.Timescale), 10), strconv.FormatUint(mv.Duration, 10), strconv.Itoa(len(in.Moov.Traks))}
+	for _, trak := range in.Moov.Traks {
+		p = append(p, strconv.FormatUint(trak.Tkhd.Duration, 10), elstDurs(trak))
+	}
+	for _, trak := range in.Moov.Traks {
+		t := tablesOfTrak(trak)
+		p = append(p, trak.Mdia.Hdlr.HandlerType, strconv.FormatUint(uint64(trak.Mdia.Mdhd.Timescale), 10), t.line())
+	}
+	return strings.Join(p, " ")
+}
+
+// cropHdrAnswer renders the output file's header durations in the format of Driver/C10.lean `crophdr`.
+func cropHdrAnswer(out *mp4.File) string {
+	s := fmt.Sprintf("mvhd=%d", out.Moov.Mvhd.Duration)
+	for _, trak := range out.Moov.Traks {
+		s += fmt.Sprintf(" T %d %s", trak.Tkhd.Duration, elstDurs(trak))
+	}
+	return s
 }
 
 // execCropModel replays "crop <ms> <input spec>" and renders the output in the model's format.
